@@ -365,7 +365,11 @@ class Engine:
         fr.path = path
         it.frames.append(fr)
         try:
-            it.exec_block(stmts, fr)
+            from .interp import _Return
+            try:
+                it.exec_block(stmts, fr)
+            except _Return as r:
+                env["__return__"] = r.value       # the range ends with (or contains) a return statement
         finally:
             it.frames.pop()
         return env
